@@ -1,9 +1,12 @@
 """C20 — keys, commitments and range-proof rewind are deterministic and recoverable; blinding algebra; builder.
 
 spec/Keys.tla is a world model / case table and an algebra over key names (cryptographic determinism is
-outside TLA+).  TLC (i) checks the transcription of the rewind / view-key / message-format rules, the
-blinding identities and the builder's excess/offset bookkeeping against the definitional oracles on every
-case inside the bounds and (ii) emits a covering selection of cases; every emitted case is replayed with
+outside TLA+).  TLC (i) checks the transcription of the rewind / view-key / message-format rules (incl.
+malformed headers, identifier padding, extra data, Keychain::sign), the blinding identities (incl. zero
+operands), the builder's excess/offset bookkeeping (single signer and the two-party exchange with partial
+signatures) and the identity of wallets made by different constructors (seed bytes of 16/32/64 bytes,
+mnemonic + passphrase, master-key masking) against the definitional oracles on every case inside the
+bounds and (ii) emits a covering selection of cases; every emitted case is replayed with
 >= 5 seeded instantiations against the real keychain / libtx code by harness/keys (h_keys), in parallel
 worker processes (static_secp_instance is a global mutex)."""
 import json, os, subprocess, time, collections
@@ -75,14 +78,33 @@ def signature(case, mm):
                 str(d.get("same_seed")).lower(), d.get("exp"), d.get("got"), a["amt"], a["mode"])
         if what == "rewind":
             base += ":rw=%s:same_seed=%s:exp=%s:got=%s" % (d.get("rw"), str(d.get("same_seed")).lower(), d.get("exp"), d.get("got"))
+        elif what in ("extra_verify", "extra_rewind"):
+            # independent of path / mode / generation
+            return base + ":created=%s:with=%s:exp=%s:got=%s" % (d.get("created"), d.get("with"), d.get("exp"), d.get("got"))
+        elif what == "rewind_on_other_commit":
+            base += ":differs_in=%s:got=%s" % (d.get("differs_in"), d.get("got"))
+        elif what == "sign_does_not_verify":
+            return "keys:sign_does_not_verify:amt=%s:mode=%s" % (a["amt"], a["mode"])
         elif "differs_in" in d:
             base += ":differs_in=%s" % d["differs_in"]
         return "%s:fam=%s:fmt=%s:depth=%d:mode=%s" % (base, a["fam"], a["fmt"], len(a["path"]), a["mode"])
     if k == "alg":
+        if what == "alg_zero_plus_zero":
+            return "keys:alg_zero_plus_zero"        # does not depend on the expression
         return "keys:%s:terms=%d" % (what, len(case["terms"]))
     if k == "tx":
         sh = case["shape"]
+        if sh["via"] == "exchange":
+            # the interactive path: one signature per failing step (which step fails does not depend on the shape)
+            return "keys:%s:via=exchange" % what
         return "keys:%s:via=%s:kern=%s:nin=%d:nout=%d" % (what, sh["via"], sh["kern"], len(sh["ins"]), len(sh["outs"]))
+    if k == "pair":
+        return "keys:%s:fam=%s:got=%s" % (what, case["a"]["fam"], d.get("got"))
+    if k == "wal":
+        sig = "keys:%s:class=%s:same=%s" % (what, case["class"], str(case["same"]).lower())
+        if what == "wallet_rewind":
+            sig += ":got=%s" % d.get("got")
+        return sig
     if k == "cb":
         sh = case["shape"]
         return "keys:%s:fam=%s:depth=%d:cbfee=%s" % (what, sh["fam"], sh["depth"], sh["cbfee"])
@@ -94,8 +116,14 @@ def judge(rep, cases, rows):
     for c, r in zip(cases, rows):
         checks += r["checks"]
         proofs += r["proofs"]
+        seen = set()
         for mm in r["mismatches"]:
-            rep.violation(signature(c, mm), {"case": c, "mismatch": mm, "insts": r["insts"]}, json.dumps(mm)[:600])
+            # one violation per case and signature (the instantiations of one case repeat it)
+            sig = signature(c, mm)
+            if sig in seen:
+                continue
+            seen.add(sig)
+            rep.violation(sig, {"case": c, "mismatch": mm, "insts": r["insts"]}, json.dumps(mm)[:600])
     return checks, proofs
 
 
@@ -134,12 +162,20 @@ def run(tier, replay_file):
     # (M) model checking of the case table / algebra / builder bookkeeping, and case emission
     r_rw, out_cases = run_tlc("mc/MC_Keys_rewind" + sfx, sel)
     tlc["rewind"] = r_rw
-    r_pairs, _ = run_tlc("mc/MC_Keys_pairs" + sfx, sel, coverage=not thorough)
+    # malformed message headers (byte 0, depth byte above 4 / below the real depth) + the padding and
+    # extra-data invariants on a configuration with fewer component classes
+    r_cr, craft_cases = run_tlc("mc/MC_Keys_craft" + sfx, sel)
+    tlc["craft"] = r_cr
+    out_cases = out_cases + craft_cases
+    r_pairs, pair_cases = run_tlc("mc/MC_Keys_pairs" + sfx, sel, coverage=not thorough)
     tlc["pairs"] = r_pairs
     r_alg, alg_cases = run_tlc("mc/MC_Keys_alg" + sfx, sel, coverage=not thorough)
     tlc["alg"] = r_alg
-    r_b, b_cases = run_tlc("mc/MC_Keys_builder" + sfx, sel, coverage=True)
+    # builder shapes (single signer + two-party exchange) and the wallet-constructor pairs share one run
+    r_b, bw_cases = run_tlc("mc/MC_Keys_builder" + sfx, sel, coverage=True)
     tlc["builder"] = r_b
+    b_cases = [c for c in bw_cases if c["kind"] in ("tx", "cb")]
+    wal_cases = [c for c in bw_cases if c["kind"] == "wal"]
     t_tlc = time.time() - t0
     # anti-vacuity on the emitted table
     combos = collections.Counter((len(c["args"]["path"]), c["args"]["mode"], c["args"]["fam"]) for c in out_cases if c["args"]["fam"] == c["args"]["fmt"])
@@ -158,20 +194,42 @@ def run(tier, replay_file):
             raise ToolError("emitted table never expects %s" % k)
     crafted = [c for c in out_cases if c["args"]["fam"] != c["args"]["fmt"]]
     vias = collections.Counter(c["shape"]["via"] for c in b_cases if c["kind"] == "tx")
-    if len(vias) < 4 or not crafted or len(alg_cases) < 50 or not any(c["kind"] == "cb" for c in b_cases):
+    if len(vias) < 5 or vias["exchange"] < 3 or not crafted or len(alg_cases) < 50 or not any(c["kind"] == "cb" for c in b_cases):
         raise ToolError("case emission too thin: vias=%s crafted=%d alg=%d" % (dict(vias), len(crafted), len(alg_cases)))
+    fmts = collections.Counter(c["args"]["fmt"] for c in crafted)
+    for f in ("legacy", "new", "wallet1", "sw2", "b0", "dp5", "dp255", "dpm1"):
+        if not fmts[f]:
+            raise ToolError("no crafted case with message format %s" % f)
+    # the clamp of the depth byte must be reached with a matching nonce (expected: recovered)
+    if not any(c["args"]["fmt"] in ("dp5", "dp255") and any(r["exp"] == "some" for r in c["rew"]) for c in crafted):
+        raise ToolError("no crafted case reaches the depth clamp with a recoverable output")
+    for c in out_cases:
+        if c["args"]["fam"] == c["args"]["fmt"]:
+            if "cj" not in c["pads"]:
+                raise ToolError("honest case without padding equivalence")
+            for row in c["extra"]:
+                exp_counts["extra:" + row["exp"]] += 1
+    if not exp_counts["extra:some"] or not exp_counts["extra:none"]:
+        raise ToolError("extra-data rows never expect both classes: %s" % dict(exp_counts))
+    wal_classes = collections.Counter((c["class"], c["same"]) for c in wal_cases)
+    for k in ("seed_same", "seed_shared32", "seed_shared16", "seed_prefix", "mn_is_seed_of_mn", "mn_seed_other_pass", "mn_same",
+              "mn_other_pass", "mn_other_words", "masked_vs_base", "masked_twice_vs_base", "masked_commute", "masked_vs_masked"):
+        if not any(c == k for c, _ in wal_classes):
+            raise ToolError("no wallet-constructor pair of class %s" % k)
+    if not pair_cases:
+        raise ToolError("no output pair emitted")
     ac = dict(r_b.action_counts())
     if not thorough:
         for rr in (r_pairs, r_alg):
             for k, v in rr.action_counts().items():
                 ac[k] = max(ac.get(k, (0, 0)), v)
-    need = ["ShapeAny"] + ([] if thorough else ["OpenAny", "CreateFirst", "CreateMore", "AppendAny"])
+    need = ["ShapeAny", "PairAny"] + ([] if thorough else ["OpenAny", "CreateFirst", "CreateMore", "AppendAny"])
     for k in need:
         if not ac.get(k, (0, 0))[0]:
             raise ToolError("spec action %s never taken" % k)
 
     # (A) replay
-    allc = out_cases + alg_cases + b_cases
+    allc = out_cases + alg_cases + b_cases + pair_cases + wal_cases
     for i, c in enumerate(allc):
         c["idx"] = i
     t1 = time.time()
@@ -211,18 +269,24 @@ def run(tier, replay_file):
         "instantiations_per_case": INSTS, "case_instantiations": len(allc) * INSTS,
         "implementation_checks": checks, "bulletproofs_created": proofs,
         "depth_mode_builder_combinations": len(combos),
+        "crafted_formats": dict(fmts), "wallet_constructor_pair_classes": {"%s:%s" % (k, str(v).lower()): n for (k, v), n in wal_classes.items()},
+        "output_pairs_two_coordinates": len(pair_cases),
         "expected_classes": dict(exp_counts), "builder_entry_points": dict(vias),
         "selftest_flipped_expectations_noticed": flipped,
         "spec_action_counts": {k: list(v) for k, v in ac.items()},
         "outside_quantifier_probe": probe,
         "tlc_wall_s": round(t_tlc, 1), "replay_wall_s": round(t_replay, 1),
-        "checker_cmd": "tlc mc/MC_Keys (rewind, pairs, alg, builder configs); h_keys replay",
+        "checker_cmd": "tlc mc/MC_Keys (rewind, craft, pairs, alg, builder+wallet configs); h_keys replay",
     }
     rep.assumptions = [
         "HMAC-SHA512 / blake2b / secp256k1 / bulletproofs are primitives: distinct names in Keys.tla stand for distinct values (injectivity), public and private BIP32 derivation commute",
         "the free abelian group over key names models scalar arithmetic mod n (independent random keys satisfy no relation)",
         "component / amount classes: {0,1,2^31-1,2^31,2^32-1}(+random normal/hardened in thorough) and {0,1,60 grin,2^63,2^64-1}(+random); other values only through the random classes",
-        "a zero total of a blinding sum is left free (the code answers Err(InvalidSecretKey)); identifiers with a depth byte > 4 are outside the quantifier (derive_key panics there, see outside_quantifier_probe)",
+        "a zero total of secp.blind_sum (Keychain::blind_sum, split, add of x and -x) is left free (the code answers Err(InvalidSecretKey)); BlindingFactor::add of two zero factors is defined (zero); "
+        "identifiers with a depth byte > 4 are outside the quantifier (derive_key panics there, see outside_quantifier_probe); a proof MESSAGE with a depth byte > 4 is inside (clamped to 4)",
+        "'recovers nothing' is Ok(None): an Err from proof::rewind is accepted only where the specification says 'unsupported' (view key, regular switch commitment)",
+        "wallet constructors: distinct seed byte strings / (word list, passphrase) pairs / mask sets give distinct master keys (HMAC-SHA512, PBKDF2 injective in the model); a masked master secret is assumed to be a valid scalar",
+        "exchange: two parties, secret nonces from aggsig::create_secnonce (thread_rng); the partition of inputs/outputs between the parties is the one of Keys.tla PartyB",
         "view keys: for the regular switch commitment the code answers Err (not implemented in view_key.rs); accepted as 'recovers nothing', an exact triple would also be accepted",
         "randomness inside build::transaction / aggsig (thread_rng) is not controlled by VERIF_SEED",
     ]
